@@ -7,10 +7,14 @@
 (*   Accept      b = Handshake::accept: genesis check, nonce-in-own-ring   *)
 (*               check, version negotiation, Shake                         *)
 (*   Finish      a reads the Shake: genesis check, version negotiation     *)
+(*   Lose        the connection breaks before the Hand arrives (the nonce  *)
+(*               was recorded by next_nonce all the same)                  *)
 (* a = b is a node dialling one of its own addresses.                      *)
 (* AcceptOutcome / InitiateOutcome are the two decision functions; the     *)
 (* harness runs the real accept / initiate against a raw peer for every    *)
-(* argument combination (MC_Handshake).                                    *)
+(* argument combination (MC_Handshake), and replays one long scripted       *)
+(* behaviour of a single Handshake object whose number of outbound         *)
+(* initiations exceeds the real NONCES_CAP (MC_HandshakeRing).             *)
 (***************************************************************************)
 EXTENDS Integers, Sequences, FiniteSets, TLC
 
@@ -65,15 +69,25 @@ Finish ==
   /\ c' = [c EXCEPT !.stage = "done", !.resI = InitiateOutcome(ver[c.from], gen[c.from], c.shake)]
   /\ UNCHANGED <<ver, gen, ring, nonce, nconn>>
 
-Reset == /\ c.stage \in {"done", "closed"} /\ c' = Idle
+\* the dialled peer resets the connection / the Hand cannot be written: `initiate` fails, the
+\* nonce stays in the ring
+Lose ==
+  /\ c.stage = "handSent"
+  /\ c' = [c EXCEPT !.stage = "lost", !.resI = Out("closed", 0)]
+  /\ UNCHANGED <<ver, gen, ring, nonce, nconn>>
+
+Reset == /\ c.stage \in {"done", "closed", "lost"} /\ c' = Idle
          /\ UNCHANGED <<ver, gen, ring, nonce, nconn>>
 
-Next == (\E a, b \in Nodes : Start(a, b)) \/ Accept \/ Finish \/ Reset
+Next == (\E a, b \in Nodes : Start(a, b)) \/ Accept \/ Finish \/ Lose \/ Reset
 Spec == Init /\ [][Next]_vars
 
 ---------------------------------------------------------------------------
-TypeOK == /\ c.stage \in {"idle", "handSent", "shakeSent", "done", "closed"}
+TypeOK == /\ c.stage \in {"idle", "handSent", "shakeSent", "done", "closed", "lost"}
           /\ \A n \in Nodes : Len(ring[n]) < RingCap
+\* the nonce of the handshake in flight is in the ring of the node that sent it, however many
+\* handshakes that node has initiated before (what SelfRefused rests on)
+InFlightRemembered == c.stage \in {"handSent", "shakeSent"} => c.hand.nonce \in Range(ring[c.from])
 \* both ends settle on the lower of the two versions
 Negotiated == c.stage = "done" =>
                 /\ c.resA = Out("ok", Min(ver[c.from], ver[c.to]))
